@@ -612,8 +612,7 @@ def kaexp_round(e4, srv, KA, plan):
 
 
 def kaexp_shard(sh):
-    """Events on an idle keep-alive connection around the moment its keep-alive time runs out (live, one worker, otherwise quiet
-    server): several clients, staggered, are served one request each and then send garbage, a malformed or a valid or half a request,
+    """Events on an idle keep-alive connection around the moment its keep-alive time runs out (live, otherwise quiet server): several clients, staggered, are served one request each and then send garbage, a malformed or a valid or half a request,
     or leave (FIN / RST) at keepalive + {-0.1 .. +1.0} s after their response - before the expiry, after it but before the worker's
     loop has looked at the connection again, or after the worker closed it.  Judged: whatever the connection's fate, the same worker
     process answers the next connection, nothing in the error log says the worker failed, and the only thing a client may receive
@@ -639,10 +638,12 @@ def kaexp_shard(sh):
             offs = offs[12:] + offs[:12]
     established = False
     for attempt in range(3):
-        srv = e4.Server("c05k", worker_class=wc, workers=1, settings=settings)
+        # four workers, each with its own loop: the clients spread over them, so that fewer of them wake the same loop (whatever
+        # wakes a loop lets it reap every connection that has expired by then - only the first event after an expiry meets the window)
+        srv = e4.Server("c05k", worker_class=wc, workers=4, settings=settings)
         try:
             srv.start()
-            w0 = srv.wait_workers(1, 25)
+            w0 = srv.wait_workers(4, 25)
             if not w0 or not srv.wait_listening(5):
                 continue
             time.sleep(0.3)
